@@ -17,6 +17,8 @@ HARNESSES = {
     "C14": ["token_roundtrip"],
     "C12": ["hvs"],
     "C13": ["hvs"],
+    # bounded conformance of the real bbolt wallet store against the assumed storage.WalletDB counter contracts
+    "C19": ["wdbconf"],
 }
 
 
